@@ -8,6 +8,7 @@ import (
 	"net/http"
 	"os"
 	"strings"
+	"sync"
 	"sync/atomic"
 	"time"
 
@@ -639,6 +640,174 @@ func runC09(c *Ctx) {
 	c09PathSweep(c, envs, cur, started)
 	close(stop)
 	c09ReplySweep(c)
+	c09ProxiedDeadline(c)
+}
+
+// parkedStream is the back-end side of a proxied streaming call that never answers: its
+// receive returns when the call's context is done, with that context's error (what grpc-go's
+// client stream does when the deadline passes).
+type parkedStream struct {
+	ctx      context.Context
+	finishes bool      // the back-end ends the call (status NotFound) instead of staying silent ...
+	body     *openBody // ... once the front's pump is parked reading this request body
+}
+
+func (p *parkedStream) Header() (metadata.MD, error) { return nil, nil }
+func (p *parkedStream) Trailer() metadata.MD         { return nil }
+func (p *parkedStream) CloseSend() error             { return nil }
+func (p *parkedStream) Context() context.Context     { return p.ctx }
+func (p *parkedStream) SendMsg(m any) error          { return nil }
+func (p *parkedStream) RecvMsg(m any) error {
+	if p.finishes {
+		if p.body != nil {
+			select {
+			case <-p.body.parked: // the pump is in its read now
+			case <-time.After(2 * time.Second):
+			}
+		}
+		return status.Error(codes.NotFound, "back-end is done")
+	}
+	<-p.ctx.Done()
+	return status.FromContextError(p.ctx.Err()).Err()
+}
+
+// openBody is a request body like an HTTP/2 server's: after its data a Read blocks until the
+// client sends more (it never does) or the handler closes the body.
+type openBody struct {
+	data     []byte
+	closed   chan struct{}
+	once     atomic.Bool
+	parked   chan struct{} // closed when a Read finds no data and parks
+	parkOnce atomic.Bool
+}
+
+func (b *openBody) Read(p []byte) (int, error) {
+	if len(b.data) > 0 {
+		n := copy(p, b.data)
+		b.data = b.data[n:]
+		return n, nil
+	}
+	if b.parkOnce.CompareAndSwap(false, true) {
+		close(b.parked)
+	}
+	<-b.closed
+	return 0, fmt.Errorf("http2: request body closed due to handler exiting")
+}
+func (b *openBody) Close() error {
+	if b.once.CompareAndSwap(false, true) {
+		close(b.closed)
+	}
+	return nil
+}
+
+// c09ProxiedDeadline: a proxied client-streaming / bidi call whose client keeps its upload open
+// without sending, and whose back-end either ends the call at once or does not answer at all
+// under a grpc-timeout. When the
+// deadline has passed the mux must give control back (the client of such a call has usually
+// gone; one that has not must not pin the server): ServeHTTP returns. The only clock-dependent
+// family of this check: the deadline is 100 ms, the verdict "did not return" is given after
+// 45 s.
+func c09ProxiedDeadline(c *Ctx) {
+	r := c.Run
+	ts, err := newTSchema()
+	if err != nil {
+		panic(err)
+	}
+	type pending struct {
+		key  string
+		cs   map[string]any
+		done chan string
+		body *openBody
+	}
+	var all []*pending
+	var conns []*grpc.ClientConn
+	var bodies sync.Map // case id (sent as request metadata, relayed to the back-end) -> its request body
+	for _, variant := range []int{0, 1, 2, 3} {
+		withOpts, finishes := variant&1 == 1, variant&2 == 2
+		var mopts []larking.MuxOption
+		if withOpts {
+			mopts = c15PassThroughOpts()
+		}
+		m, err := larking.NewMux(mopts...)
+		if err != nil {
+			panic(err)
+		}
+		be := env.NewBackend("parked", []protoreflect.FileDescriptor{ts.fd}, []string{"vs.T"})
+		be.NewStream = func(ctx context.Context, desc *grpc.StreamDesc, method string) (grpc.ClientStream, error) {
+			ps := &parkedStream{ctx: ctx, finishes: finishes}
+			if md, ok := metadata.FromOutgoingContext(ctx); ok && len(md.Get("x-case")) > 0 {
+				if b, ok := bodies.Load(md.Get("x-case")[0]); ok {
+					ps.body = b.(*openBody)
+				}
+			}
+			return ps, nil
+		}
+		if err := m.RegisterConn(context.Background(), be.Conn()); err != nil {
+			panic(err)
+		}
+		conns = append(conns, be.Conn())
+		pb, _ := proto.Marshal(ts.newReq("", []byte("first"), 0))
+		for _, method := range []string{"/vs.T/Bidi", "/vs.T/CS"} {
+			for _, front := range []string{"application/grpc", "application/grpc-web+proto"} {
+				// the first message is there: the proxy's handler is past its own first receive,
+				// which it makes itself (a handler parked in a receive of its own when the deadline
+				// passes is released by the client's next move only; that is not demanded here)
+				for _, first := range []bool{true} {
+					body := &openBody{closed: make(chan struct{}), parked: make(chan struct{})}
+					caseID := fmt.Sprint(len(all))
+					bodies.Store(caseID, body)
+					if first {
+						body.data = wire.GRPCFrame(0, pb)
+					}
+					req, _ := http.NewRequest("POST", method, body)
+					req.Header.Set("Content-Type", front)
+					if !finishes {
+						req.Header.Set("Grpc-Timeout", "100m")
+					}
+					req.Header.Set("Te", "trailers")
+					req.Header.Set("X-Case", caseID)
+					req.Proto, req.ProtoMajor, req.ProtoMinor = "HTTP/2.0", 2, 0
+					req.ContentLength = -1
+					rec := env.NewRecorder()
+					p := &pending{done: make(chan string, 1), body: body,
+						key: fmt.Sprintf("proxied %s front=%s first-message=%v opts=%v %s, upload left open", method, front, first, withOpts, map[bool]string{false: "grpc-timeout=100m, back-end silent", true: "no timeout, back-end ends the call at once"}[finishes]),
+						cs:  map[string]any{"family": "proxied-deadline", "method": method, "front": front, "first": first, "opts": withOpts, "backend_finishes": finishes}}
+					all = append(all, p)
+					go func() {
+						pan, txt := guard(func() { m.ServeHTTP(rec, req) })
+						if pan {
+							p.done <- "panic: " + txt
+						} else {
+							p.done <- ""
+						}
+					}()
+				}
+			}
+		}
+	}
+	// all calls run at once; the verdict "did not return" is given 45 s after a 100 ms deadline
+	limit := time.After(45 * time.Second)
+	for _, p := range all {
+		r.Eval(1)
+		r.Distinct("proxied-deadline|" + p.key)
+		select {
+		case res := <-p.done:
+			if res != "" {
+				r.Outcome("FAIL:panic")
+				r.Violation(report.Violation{Oracle: "panic", Key: "panic " + p.key, Case: p.cs, Note: res})
+			} else {
+				r.Outcome("proxied-deadline:returned")
+			}
+		case <-limit:
+			limit = time.After(0)
+			r.Outcome("FAIL:wedged-after-deadline")
+			r.Violation(report.Violation{Oracle: "wedged-after-deadline", Key: "wedged-after-deadline " + p.key, Case: p.cs, Note: "ServeHTTP had not returned after 45 s although the handler returned at once (back-end done) or 100 ms in (grpc-timeout): the mux waits for the proxy's pump, which is parked reading a request body nobody closes"})
+			p.body.Close() // let the goroutine go
+		}
+	}
+	for _, cc := range conns {
+		cc.Close()
+	}
 }
 
 // c09ReplySweep: the reply path. Requests that negotiate gzip message compression, against a
@@ -785,6 +954,16 @@ func c09PathSweep(c *Ctx, envs []*c09Env, cur, started []atomic.Int64) {
 }
 
 func replayC09(c *Ctx, v report.Violation) {
+	if m, ok := v.Case.(map[string]any); ok && m["family"] == "proxied-deadline" {
+		sub := *c
+		sub.Run = report.NewRun("C09", "quick", 0, "exploration")
+		c09ProxiedDeadline(&sub)
+		fmt.Printf("replay: proxied-deadline family re-run -> %d violations\n", sub.Run.NumViolations())
+		if sub.Run.NumViolations() > 0 {
+			c.Run.Violation(v)
+		}
+		return
+	}
 	var tc c09Case
 	if !remarshal(v.Case, &tc) {
 		fmt.Println("replay: cannot decode case")
